@@ -35,6 +35,7 @@ func C09(r *core.Run) {
 func C11(r *core.Run) {
 	panicScope(r, entriesC11...)
 	positionsAssigned(r)
+	positionsCoverConsumed(r)
 	errorListDiscipline(r)
 	lexerPositions(r)
 }
@@ -43,7 +44,9 @@ func C11(r *core.Run) {
 func C19(r *core.Run) {
 	panicScope(r, entriesC19...)
 	positionsAssigned(r)
+	positionsCoverConsumed(r)
 	fmtDiffForms(r)
+	editsDisjoint(r)
 }
 
 // charConsts returns the rune constants (and identifiers) listed in the case
@@ -882,5 +885,163 @@ func tokenTextOpaque(r *core.Run) {
 	})
 	if n == 0 {
 		r.Fatal("R-CONST/opaque: no token-assembling function found in fmt.go (anchor moved?)")
+	}
+}
+
+// positionsCoverConsumed (R-POS/cover): a production that takes a node's
+// Start and End from a list of the tokens it popped must keep that list
+// complete: once a token has been consumed it belongs to the node's source
+// range, or the per-fragment edits of the formatter leave the tail of the
+// node uncovered.
+func positionsCoverConsumed(r *core.Run) {
+	r.Rule("R-POS/cover", "in the parser, a token slice whose first and last elements provide a node's Start and End (X[0].Start, X[len(X)-1].End) is only ever extended by append: tokens the production consumed are never dropped from it, so the node's range covers everything that was consumed")
+	pk := r.P.Pkg(parserRel)
+	if pk == nil {
+		return
+	}
+	info := pk.TypesInfo
+	n := 0
+	core.AllFuncDecls(pk, func(fd *ast.FuncDecl) {
+		used := map[string]ast.Node{}
+		ast.Inspect(fd.Body, func(nd ast.Node) bool {
+			kv, ok := nd.(*ast.KeyValueExpr)
+			if !ok {
+				return true
+			}
+			k, ok := kv.Key.(*ast.Ident)
+			if !ok || (k.Name != "Start" && k.Name != "End") {
+				return true
+			}
+			// X[...].Start / X[...].End
+			sel, ok := core.Unparen(kv.Value).(*ast.SelectorExpr)
+			if !ok {
+				return true
+			}
+			ix, ok := core.Unparen(sel.X).(*ast.IndexExpr)
+			if !ok {
+				return true
+			}
+			if sl, isSlice := info.TypeOf(ix.X).Underlying().(*types.Slice); isSlice && strings.HasSuffix(core.TypeStr(sl.Elem()), "parser.Token") {
+				used[core.ExprStr(ix.X)] = kv
+			}
+			return true
+		})
+		for name, at := range used {
+			n++
+			o := r.Add("R-POS/cover", fmt.Sprintf("parser.%s | token list %s", core.FuncName(fd), name), at.Pos(), "token list a node's range is taken from")
+			var bad []string
+			ast.Inspect(fd.Body, func(nd ast.Node) bool {
+				as, ok := nd.(*ast.AssignStmt)
+				if !ok {
+					return true
+				}
+				for i, l := range as.Lhs {
+					if core.ExprStr(l) != name || as.Tok == token.DEFINE {
+						continue
+					}
+					var rhs ast.Expr
+					if len(as.Rhs) == len(as.Lhs) {
+						rhs = as.Rhs[i]
+					} else {
+						rhs = as.Rhs[0]
+					}
+					if c, ok := core.Unparen(rhs).(*ast.CallExpr); ok && core.CalleeName(info, c) == "builtin.append" && len(c.Args) > 0 && core.ExprStr(c.Args[0]) == name {
+						continue
+					}
+					bad = append(bad, fmt.Sprintf("%s = %s at %s", name, core.ExprStr(rhs), r.P.Rel(as.Pos())))
+				}
+				return true
+			})
+			if len(bad) == 0 {
+				o.Auto("only extended by append")
+			} else {
+				o.Fail("the list is rewritten (%s): tokens that were consumed can fall outside [Start, End], and the formatter's edit for this node no longer covers the lines they were on", strings.Join(bad, "; "))
+			}
+		}
+	})
+	if n == 0 {
+		r.Fatal("R-POS/cover: no node takes its range from a token list (anchor moved?)")
+	}
+}
+
+// editsDisjoint (R-CONST/disjoint): the per-fragment edits of the formatter
+// can start on a line an earlier fragment already replaced (several statements
+// on one line). What FmtDiffs works from must therefore have gone through a
+// step that only starts a new edit when its first line is not below the
+// previous edit's end.
+func editsDisjoint(r *core.Run) {
+	r.Rule("R-CONST/disjoint", "collectFmtFragments returns its fragment list through a function in which a fragment is appended as a new edit only on paths where `frag.FromLine < last.ToLine` is false (or the output is still empty): edits never overlap, whatever shares a source line")
+	fd, pk := r.P.FuncDecl(parserRel, "collectFmtFragments")
+	if fd == nil {
+		r.Fatal("anchor: parser.collectFmtFragments not found")
+		return
+	}
+	info := pk.TypesInfo
+	o := r.Add("R-CONST/disjoint", "parser.collectFmtFragments | fragments are made disjoint before they are returned", fd.Pos(), "disjointness of format edits")
+	// the success return: last return statement's first result
+	var ret *ast.ReturnStmt
+	if n := len(fd.Body.List); n > 0 {
+		ret, _ = fd.Body.List[n-1].(*ast.ReturnStmt)
+	}
+	if ret == nil || len(ret.Results) == 0 {
+		o.Fail("no final return found")
+		return
+	}
+	call, ok := core.Unparen(ret.Results[0]).(*ast.CallExpr)
+	if !ok {
+		o.Fail("the fragments are returned as %s, without a step that merges fragments sharing a line: two statements on one line yield two edits of the same range", core.ExprStr(ret.Results[0]))
+		return
+	}
+	fn := core.CalleeFunc(info, call)
+	var mfd *ast.FuncDecl
+	if fn != nil {
+		core.AllFuncDecls(pk, func(d *ast.FuncDecl) {
+			if info.Defs[d.Name] == types.Object(fn) {
+				mfd = d
+			}
+		})
+	}
+	if mfd == nil {
+		o.Fail("the function %s applied to the fragments is not in the parser package", core.ExprStr(call.Fun))
+		return
+	}
+	excl := func(cond ast.Expr, branch bool) bool {
+		if branch {
+			return false
+		}
+		s := core.ExprStr(cond)
+		if b, ok := core.Unparen(cond).(*ast.BinaryExpr); ok {
+			if b.Op == token.LSS && strings.HasSuffix(core.ExprStr(b.X), ".FromLine") && strings.HasSuffix(core.ExprStr(b.Y), ".ToLine") {
+				return true
+			}
+			if b.Op == token.GTR && strings.HasPrefix(s, "len(") {
+				return true
+			}
+		}
+		return false
+	}
+	appends, bad := 0, 0
+	ast.Inspect(mfd.Body, func(nd ast.Node) bool {
+		as, ok := nd.(*ast.AssignStmt)
+		if !ok || len(as.Rhs) != 1 {
+			return true
+		}
+		c, ok := core.Unparen(as.Rhs[0]).(*ast.CallExpr)
+		if !ok || core.CalleeName(info, c) != "builtin.append" || !strings.HasSuffix(core.TypeStr(info.TypeOf(as.Lhs[0])), "[]"+parserRel+".FmtDiff") && !strings.Contains(core.TypeStr(info.TypeOf(as.Lhs[0])), "FmtDiff") {
+			return true
+		}
+		appends++
+		if rules.ReachableAvoiding(mfd.Body, as, excl) {
+			bad++
+		}
+		return true
+	})
+	switch {
+	case appends == 0:
+		o.Fail("%s never appends to an output list", mfd.Name.Name)
+	case bad > 0:
+		o.Fail("in %s a fragment can be appended as a new edit although it starts before the previous edit ends", mfd.Name.Name)
+	default:
+		o.Auto("%s starts a new edit only when FromLine is not below the previous ToLine", mfd.Name.Name)
 	}
 }
